@@ -1,6 +1,7 @@
 #!/bin/sh
 # usage: tools/try_seed.sh seeded/<dir> <CHECK-ID> [tier]  -- applies the patch in the scratch worktree /tmp/mut (never /repo) and runs the check against it
 D="$(cd "$1" && pwd)"; ID="$2"; TIER="${3:-quick}"
+git -C /repo worktree list | grep -q "/tmp/mut " || git -C /repo worktree add -q --detach /tmp/mut HEAD
 git -C /tmp/mut checkout -q -- . && git -C /tmp/mut checkout -q --detach "$(git -C /repo rev-parse HEAD)" && git -C /tmp/mut apply "$D/patch.diff" || exit 3
 VERIF_REPO=/tmp/mut /verif/check "$ID" --tier "$TIER" 2>&1 | tail -3 | cut -c1-400
 git -C /tmp/mut checkout -q -- .
